@@ -11,11 +11,11 @@ from __future__ import annotations
 import queue as _queue
 
 
-class Deadlock(AssertionError):
-    pass
+class Deadlock(BaseException):
+    """blocks forever; BaseException so that SDK code (`except Exception`) cannot swallow the verdict"""
 
 
-class StepLimit(AssertionError):
+class StepLimit(BaseException):
     pass
 
 
@@ -77,12 +77,23 @@ class VQueue:
     clock: Clock = None
     idle_hook = None  # called when a get finds the queue empty
 
+    join_hook = None  # called by join() while tasks are unfinished: lets other threads run; returns False if nobody can
+
     def __init__(self):
         self.items = []
         self.gets = 0
+        self.unfinished = 0
 
     def put(self, x):
         self.items.append(x)
+        self.unfinished += 1
+
+    def join(self):
+        n = 0
+        while self.unfinished > 0:
+            n += 1
+            if VQueue.join_hook is None or not VQueue.join_hook(self) or n > 200:
+                raise Deadlock("queue.join() blocks forever: queued operations were never marked done")
 
     def get_nowait(self):
         if not self.items:
@@ -100,7 +111,7 @@ class VQueue:
         return self.items.pop(0)
 
     def task_done(self):
-        pass
+        self.unfinished -= 1
 
     def empty(self):
         return not self.items
